@@ -16,7 +16,7 @@ from dataclasses import dataclass, field
 EXC_CLASSES = {
     "BaseException": 0, "Exception": 1, "CancelledError": 2, "RuntimeError": 3, "AssertionError": 4,
     "StopAsyncIteration": 5, "LookupError": 6, "AttributeError": 7, "MissingState": 8, "MissingContext": 9,
-    "BaseExceptionGroup": 10, "TypeError": 11, "KeyError": 12, "ValueError": 13,
+    "BaseExceptionGroup": 10, "TypeError": 11, "KeyError": 12, "ValueError": 13, "TimeoutError": 14,
 }
 CMP = {ast.Eq: 0, ast.NotEq: 1, ast.Lt: 2, ast.LtE: 3, ast.Gt: 4, ast.GtE: 5}
 B = dict(sub=24, delitem=20, movetoend=21, popfirst=22, pair=23, anyinst=17, add=18, isnumber=19, get=16, len=0, append=1, appendleft=2, extend=3, popleft=4, head=5, contains=6, getitem=7, setitem=8, isinstance=9,
@@ -51,6 +51,7 @@ class Target:
     expr_externals: dict[str, tuple[int, list[str]]] = field(default_factory=dict)
     # source text of a whole expression (e.g. a generator expression over other objects) -> (external number, argument sources)
     inline_self: set[str] = field(default_factory=set)   # methods inlined when called on `self` even if listed in method_externals
+    nested_ids: dict[str, int] = field(default_factory=dict)    # name of a nested function -> identity of its function object
     with_externals: dict[str, tuple[int, int]] = field(default_factory=dict)   # receiver text of a `with` -> (enter, exit) externals
     closure: list[str] = field(default_factory=list)   # free variables of a nested function (the enclosing function's parameters), numbered first
     part: str | None = None             # "loop_body": the function must be `<name> = <int>; while True: <body>` – translate <body> only
@@ -585,6 +586,12 @@ class Tr:
                 return f"(Stmt.loop fuel {self.stmts(s.body)})"
             # `while c: body`  =  `while True: (body if c else break)`
             return f"(Stmt.loop fuel {self.loop_step(s)})"
+        if isinstance(s, (ast.FunctionDef, ast.AsyncFunctionDef)):
+            # a nested function definition: the name is bound to a function object (identity = order of definition); its body is
+            # a target of its own (`outer.inner`)
+            if s.name not in self.t.nested_ids:
+                raise Unrecognised(f"nested function {s.name}")
+            return f"(Stmt.assign {self.local(s.name)} (Expr.lit (Val.obj {self.t.nested_ids[s.name]})))"
         if isinstance(s, (ast.AsyncWith, ast.With)):
             en, ex = self.with_parts(s)
             return f"(Stmt.seq {en} (Stmt.try_ {self.stmts(s.body)} Stmt.noHandler Stmt.pass {ex}))"
